@@ -1,9 +1,6 @@
 // ---- ghost vocabulary for the byte-wise iterators: spec streams over the DA ----
 //@include ghost_chain.rs
-spec fn outs_ok<V>(st: Seq<State>, outs: Seq<Output<V>>) -> bool {
-    &&& forall|i: int| 0 <= i < st.len() ==> st_opos(#[trigger] st[i]) <= outs.len()
-    &&& forall|j: int| 0 <= j < outs.len() ==> out_parent(#[trigger] outs[j]) <= j
-}
+//@include ghost_outs_bw.rs
 
 // all matches the overlapping search still has to report from state s with `rest` unread, k bytes read
 spec fn ovl_scan<V>(st: Seq<State>, outs: Seq<Output<V>>, s: int, rest: Seq<u8>, k: nat) -> Seq<Match<V>>
